@@ -56,3 +56,13 @@ CASES += [
       "                            if nlist not in new_level_prev:\n                                new_level_prev.append(nlist)",
       "                            if new_level_prev.count(nlist) == 0:\n                                new_level_prev.append(nlist)"),
 ]
+
+OSY = "quantarhei/builders/opensystem.py"
+CASES += [
+    {"name": "propagator getter ignores the requested depth", "kind": "mutant", "rule": "C16-F", "edits": [
+        (OSY, "        kth = self.get_KTHierarchy(depth)", "        kth = self.get_KTHierarchy()", 1)]},
+    {"name": "hierarchy getter builds with a fixed depth", "kind": "mutant", "rule": "C16-F", "edits": [
+        (OSY, "        return KTHierarchy(HH, sbi, depth=depth)", "        return KTHierarchy(HH, sbi, depth=2)", 1)]},
+    {"name": "hierarchy bound to a local before it is returned", "kind": "twin", "edits": [
+        (OSY, "        return KTHierarchy(HH, sbi, depth=depth)", "        hy = KTHierarchy(HH, sbi, depth)\n        return hy", 1)]},
+]
